@@ -1479,7 +1479,18 @@ def _type_of(repo, fi, expr, anchor, depth=0, look=True):
                     t = nxt(f.body)
                     return ('map', t) if t is not None else None
                 return None
+            if isinstance(f, ast.Call) and call_tail(f) == 'partial' and f.args and not any(isinstance(a, ast.Starred) for a in f.args):
+                # partial(defaultdict, C): what calling it without further arguments makes
+                t = nxt(ast.Call(func=f.args[0], args=list(f.args[1:]), keywords=list(f.keywords)))
+                return ('map', t) if t is not None else None
             ci = _internal_class(repo, mod, f) if isinstance(f, (ast.Name, ast.Attribute)) else None
+            if ci is None and isinstance(f, ast.Name):
+                # a function of the analysed tree taking no arguments: what it returns
+                callee = _callee(repo, fi, ast.Call(func=f, args=[], keywords=[]))
+                if callee is not None and not callee.params():
+                    rets = [r for r in returns_of(callee) if r.value is not None]
+                    t = _join(_type_of(repo, callee, r.value, r, depth + 2) for r in rets)
+                    return ('map', t) if t is not None else None
             return ('map', ('inst', ci)) if ci is not None else None
         if call_name(e) in ('copy', 'deepcopy', 'copy.copy', 'copy.deepcopy') and len(e.args) == 1 and not e.keywords:
             return nxt(e.args[0])       # a copy is of the class of its original
